@@ -156,6 +156,22 @@ def check(case):
             res.claim("vmap_rollout_equals_rollout_vmap", float(np.max(np.abs(a_ - np.swapaxes(b_, 0, 1)))) if fin else 0.0, 1e-10 * lscale * n, key=key + ":vmap_rollout")
             close("vmap_rollout_first_member_equals_loop", a_[0], loop, k=key + ":vmap_rollout", t=1e-10 * lscale * n)
 
+    # ---- (e) a member that blows up (inf / NaN) must not touch the others: "each batch member's result depends
+    # only on that member" - in the mapped step and along mapped rollouts, either nesting order
+    if B >= 2 and ok and ok2 and np.all(np.isfinite(a_)):
+        j = case["replace"] % B
+        U3 = U.copy()
+        U3[j] = np.where(np.arange(U[j].size).reshape(U[j].shape) % 2 == 0, np.inf, np.nan)
+        others = [b for b in range(B) if b != j]
+        ok3, c_ = res.lib("rollout_vmap_with_non_finite_member", lambda: ex.rollout(jax.vmap(S), n)(jnp.asarray(U3)), key=key + ":vmap_rollout")
+        if ok3:
+            c_ = np.asarray(c_)
+            res.claim("rollout_vmap_members_independent_of_a_non_finite_member", float(np.max(np.abs(c_[:, others] - b_[:, others]))) if np.all(np.isfinite(c_[:, others])) else float("inf"), 1e-13 * lscale, key=key + ":vmap_independence")
+            res.true("non_finite_member_stays_non_finite", not bool(np.any(np.isfinite(c_[-1, j]).all())), key=key + ":vmap_independence:non_finite_member", msg="a state of inf/NaN became finite")
+        ok3, d_ = res.lib("vmap_rollout_with_non_finite_member", lambda: jax.vmap(ex.rollout(S, n))(jnp.asarray(U3)), key=key + ":vmap_rollout")
+        if ok3:
+            d_ = np.asarray(d_)
+            res.claim("vmap_rollout_members_independent_of_a_non_finite_member", float(np.max(np.abs(d_[others] - a_[others]))) if np.all(np.isfinite(d_[others])) else float("inf"), 1e-13 * lscale, key=key + ":vmap_independence")
     res.nontrivial = bool(moved and (B >= 2))
     return res
 
